@@ -98,6 +98,13 @@ def drv (args : List String) : String :=
       match instRun rnd Inst.fresh ops [] with
       | none => "bad-op"
       | some outs => " | ".intercalate outs
+  | ["text", data] =>
+    match unhex data with
+    | none => "bad-op"
+    | some d =>
+      match text d with
+      | .ok x => s!"ok {hex x}"
+      | .error e => s!"exc {errStr e}"
   | ["loop", raw] =>
     match unhex raw with
     | none => "bad-op"
